@@ -106,7 +106,7 @@ def run(tier, replay=None):
         tf = igz.run_harness(scns, wd, name)
         recs, summ, by = igz.merge(scns, tf)
         calls += summ.get("calls", 0)
-        res, _ = igz.judge(module, recs, wd, name, shards=12)
+        res, _ = igz.judge(module, igz.group_inflate(recs) if name == "inflate" else recs, wd, name, shards=12)
         igz.report(v, scns, res, by, prefix=name + ":")
         out[name] = (scns, res, by)
         for s in scns:
